@@ -58,9 +58,9 @@ def run(run, args):
     outs = Counter("panic" if r["parse"][0] == "panic" else ("ok" if "ok" in r["parse"][0] else "err%d" % r["parse"][0]["err"]) for r in recs)
     run.cov.update({"evaluations": len(recs) + len(pairs), "distinct_nontrivial": len(set(res[3])) + len(pairs),
                     "rule": "all %d (element, isotope-or-none) pairs of the table rendered, parsed back and round-tripped through serde_json; every string "
-                            "up to length %d over a 16-character alphabet {C H l c A 1 3 0 [ ] e-acute 4-byte-digit space + * e} (exhaustive) and random / "
+                            "up to length %d over a 19-character alphabet {C H l c A 1 3 0 [ ] e-acute 4-byte-digit space + * e U u o} (exhaustive) and random / "
                             "one-edit-mutated specifications, each parsed through 3 entry points and used as a read key (index and get_str) on list, map and "
-                            "both enum forms of {C:2, C[13]:5, H:7, Cl[37]:3, Ac:4}; non-trivial = accepted or longer than 2" % (len(pairs), L),
+                            "both enum forms of {C:2, C[13]:5, H:7, Cl[37]:3, Ac:4, Uuo:6, H+:8}; non-trivial = accepted or longer than 2" % (len(pairs), L),
                     "modes": dict(Counter(r["mode"] for r in recs)), "parse_outcomes": dict(outs), "table_pairs_model": pres[2][0] if pres[2] else None,
                     "error_kind_differences_model_vs_impl": len(res[2]),
                     "traces_validated_against_impl": len(recs) + len(pairs) - len(res[0]) - len(pres[0])})
